@@ -81,6 +81,16 @@ Matmul(a, b) ==
            [] r1 = 2 /\ r2 = 1 -> IF Compatible(ta[2], tb[1]) THEN D(TRUE, ld \o <<ta[1]>>) ELSE Err
            [] OTHER -> Dot(a, b)
 
+(* ---- tensor (outer) product of two fields of the same rank 1 or 2 (TensorProd); sym = 1: the symmetrised product of two  ---- *)
+(* ---- matrices  1/2 (A_ik B_jl + A_il B_jk), a fourth-order tensor that is NOT symmetric in A <-> B unless A = B         ---- *)
+TensorProdRule(a, b, sym) ==
+    LET r1 == Rank(a)  r2 == Rank(b)  ld == LeadOf(a, b)  ta == Tens(a)  tb == Tens(b) IN
+    IF ~(a.fe /\ b.fe) \/ r1 # r2 \/ r1 \notin {1, 2} \/ Bad(ld) THEN Err
+    ELSE IF r1 = 1 THEN D(TRUE, ld \o <<ta[1], tb[1]>>)
+    ELSE IF sym = 0 THEN D(TRUE, ld \o ta \o tb)
+    ELSE IF ta[2] # tb[2] THEN Err          \* the two terms have the shapes (a1, b1, a2, b2) and (a1, b1, b2, a2)
+    ELSE D(TRUE, ld \o <<ta[1], tb[1], ta[2], tb[2]>>)
+
 (* ---- unary ---- *)
 Rev(s) == [i \in 1..Len(s) |-> s[Len(s) + 1 - i]]
 Transp(a) ==
@@ -123,6 +133,7 @@ Result(op, a, b, arg) ==
       [] op = "matmul" -> Matmul(a, b)
       [] op = "dot"    -> Dot(a, b)
       [] op = "ddot"   -> Ddot(a, b)
+      [] op = "tensorprod" -> TensorProdRule(a, b, arg)
       [] op = "T"      -> Transp(a)
       [] op = "reduce" -> Reduce(a, arg)
       [] op \in {"det", "trace"} -> DetLike(a)
@@ -134,6 +145,7 @@ None == D(FALSE, <<>>)
 Cases ==
          {[op |-> op, a |-> a, b |-> b, arg |-> 0] : op \in Binary \cap Ops, a \in FeOperands, b \in FeOperands \cup PlainOperands}
     \cup {[op |-> op, a |-> a, b |-> b, arg |-> 0] : op \in {"ew", "matmul"} \cap Ops, a \in PlainOperands, b \in FeOperands}     \* constant on the left (a plain array acts as a constant tensor)
+    \cup {[op |-> "tensorprod", a |-> a, b |-> b, arg |-> sy] : a \in IF "tensorprod" \in Ops THEN FeOperands ELSE {}, b \in FeOperands, sy \in {0, 1}}
     \cup {[op |-> op, a |-> a, b |-> None, arg |-> 0] : op \in (Unary \ {"reduce"}) \cap Ops, a \in FeOperands}
     \cup {[op |-> "reduce", a |-> a, b |-> None, arg |-> ax] : a \in IF "reduce" \in Ops THEN FeOperands ELSE {}, ax \in (-(MaxRank + 2)..(MaxRank + 1)) \cup {99}}
     \cup UNION {{[op |-> "broadcast", a |-> D(TRUE, <<ne, np>>), b |-> v, arg |-> tn] :
